@@ -96,9 +96,8 @@ func (c *Ctx) GetStaged() *Staged {
 		{Name: "go/object/packed", Object: true, Packed: true},
 		{Name: "go/object/dense", Object: true},
 	}
-	if c.Tier == "thorough" {
-		variants = append(variants, Variant{Name: "go/global/packed/http", Packed: true, Http: true})
-	}
+	// the --httpdebug variant switches on extra template text (and the holes in it): staged in both tiers
+	variants = append(variants, Variant{Name: "go/global/packed/http", Packed: true, Http: true})
 	for _, v := range variants {
 		sc := &StagedConfig{V: v, FieldOf: map[string]*types.Var{}}
 		st.Configs = append(st.Configs, sc)
